@@ -141,7 +141,7 @@ int main(int argc, char **argv)
 				n = lha_decoder_read(d, rb, ask);
 				++nreads;
 				if (n > ask) { apiv |= 1; free(rb); break; }
-				if (!(flags & 4)) {
+				if (!(flags & 4) && n > 0) {
 					if (total + n > ocap) { ocap = (total + n) * 2 + 4096; obuf = realloc(obuf, ocap); }
 					memcpy(obuf + total, rb, n);
 				}
@@ -158,7 +158,7 @@ emit:
 		w32(out, id); w32(out, status); w64(out, total); w32(out, crc_rep); w64(out, len_rep); w32(out, own);
 		w32(out, nreads); w32(out, apiv); w32(out, ncb); w32(out, ncb < MAXCB ? ncb : MAXCB);
 		for (i = 0; i < ncb && i < MAXCB; ++i) { w32(out, cbs[i][0]); w32(out, cbs[i][1]); }
-		if (flags & 4) { w64(out, 0); } else { w64(out, total); fwrite(obuf, 1, total, out); }
+		if (flags & 4) { w64(out, 0); } else { w64(out, total); if (total) fwrite(obuf, 1, total, out); }
 		free(obuf); free(sched); free((void *) stream);
 		++ncases;
 	}
